@@ -813,6 +813,8 @@ struct Shared {
     serial: AtomicU32,
     /// values handed to insert (before the call), by key
     issued: Mutex<HashMap<u32, HashSet<Val>>>,
+    /// explicit cost each issued value was written with
+    val_cost: Mutex<HashMap<Val, i64>>,
     /// insert returned true: (value, clear epoch at return)
     accepted: Mutex<Vec<(Val, u32)>>,
     cb: RecTs,
@@ -958,6 +960,7 @@ fn run_inner(case: &StressCase) -> SResult {
     let sh = Arc::new(Shared {
         serial: AtomicU32::new(0),
         issued: Mutex::new(HashMap::new()),
+        val_cost: Mutex::new(HashMap::new()),
         accepted: Mutex::new(Vec::new()),
         cb: cb.clone(),
         clear_seq: AtomicU32::new(0),
@@ -1375,6 +1378,7 @@ fn client(t: usize, kind: Kind, api: Box<dyn Api>, script: &[SOp], sh: &Shared, 
                 let s = sh.serial.fetch_add(1, Ordering::SeqCst) + 1;
                 let v = Val { key: k, serial: s, tag: (*cost).clamp(0, 1000) as u32 + 1 };
                 sh.issued.lock().entry(k).or_default().insert(v);
+                sh.val_cost.lock().insert(v, *cost);
                 let seq_before = sh.clear_seq.load(Ordering::SeqCst);
                 let began = mono_ns();
                 let evi = ev_begin(k, v.serial);
@@ -1418,6 +1422,7 @@ fn client(t: usize, kind: Kind, api: Box<dyn Api>, script: &[SOp], sh: &Shared, 
                 let s = sh.serial.fetch_add(1, Ordering::SeqCst) + 1;
                 let v = Val { key: k, serial: s, tag: (*cost).clamp(0, 1000) as u32 + 1 };
                 sh.issued.lock().entry(k).or_default().insert(v);
+                sh.val_cost.lock().insert(v, *cost);
                 let seq_before = sh.clear_seq.load(Ordering::SeqCst);
                 let evi = ev_begin(k, v.serial);
                 progress.enter(t, 2);
@@ -1825,6 +1830,44 @@ fn quiescent_invariants(case: &StressCase, api: &Arc<Box<dyn Api>>, sh: &Arc<Sha
             }
         }
     }
+    // C16, a validity predicate (which Update item the policy had applied when a victim was chosen
+    // is the schedule's business): a rejected newcomer is reported with its own charge, and an
+    // evicted / expired entry with the charge of *some* value written under its key - the given
+    // cost, or the Coster's valuation when that was 0, plus the internal overhead
+    if !case.cfg.collide {
+        let internal = if case.cfg.ignore_internal_cost { 0 } else { crate::gen::item_size() };
+        let vc = sh.val_cost.lock();
+        let issued = sh.issued.lock();
+        let charge = |v: &Val| vc.get(v).map(|c| (if *c == 0 { v.tag as i64 } else { *c }) + internal);
+        let drains = case.threads.iter().flatten().any(|o| matches!(o, SOp::Clear | SOp::Close));
+        for (_, e) in sh.cb.log.lock().iter() {
+            match e {
+                Ev::Reject(v, _, _, cost, ..) => {
+                    if let Some(want) = charge(v) {
+                        if *cost != want {
+                            return Some(SResult::violation(&["C16"], "callback_cost_not_charged", format!("on_reject reports cost {} for {}, which was written with a charge of {}", cost, v, want)));
+                        }
+                    }
+                }
+                Ev::Evict(v, _, _, cost, ..) => {
+                    // (a clear() or the stop drain hands the New items it discards from the
+                    // buffer to on_evict as they were queued: never charged, the cost as given)
+                    if drains && charge(v) == Some(*cost + internal) {
+                        continue;
+                    }
+                    if let Some(set) = issued.get(&v.key) {
+                        if vc.contains_key(v) && !set.iter().any(|o| charge(o) == Some(*cost)) {
+                            let mut all: Vec<i64> = set.iter().filter_map(|o| charge(o)).collect();
+                            all.sort_unstable();
+                            all.dedup();
+                            return Some(SResult::violation(&["C16"], "callback_cost_not_charged", format!("on_evict reports cost {} for {}; no value ever written under key {} was charged that (charges written: {:?})", cost, v, v.key, all)));
+                        }
+                    }
+                }
+                _ => {}
+            }
+        }
+    }
     {
         let stamps = sh.ret_stamp.lock();
         let spans = sh.clear_spans.lock();
@@ -2057,7 +2100,31 @@ pub fn stress_strategy(kind: Kind, async_pct: u32) -> BoxedStrategy<StressCase> 
                     1 => Just(SOp::Wait),
                     1 => (0u16..3000).prop_map(SOp::Spin),
                 ];
-                proptest::collection::vec(proptest::collection::vec(op, 10..80), 1..=2).prop_map(move |threads| StressCase { kind, exec, cfg: cfg.clone(), threads, perturb, drop_only: false })
+                proptest::collection::vec(proptest::collection::vec(op, 10..80), 1..=2).prop_map(move |mut threads| {
+                    // one case in four is a TTL churn: two or three clients re-insert the same three
+                    // keys with TTLs that keep moving them between expiry seconds, while the
+                    // processor files the admitted ones
+                    if perturb % 4 == 2 {
+                        while threads.len() < 2 + (perturb / 4 % 2) as usize {
+                            let mut t = threads[0].clone();
+                            t.reverse();
+                            threads.push(t);
+                        }
+                        for (ti, t) in threads.iter_mut().enumerate() {
+                            for (i, op) in t.iter_mut().enumerate() {
+                                match op {
+                                    SOp::Insert { k, ttl_ms, .. } => {
+                                        *k %= 3;
+                                        *ttl_ms = 1 + ((i as u32 * 769 + ti as u32 * 331 + *k * 97) % 2600);
+                                    }
+                                    SOp::Iip { k, .. } | SOp::Remove { k } | SOp::Get { k } | SOp::GetMut { k } | SOp::GetHold { k, .. } => *k %= 3,
+                                    _ => {}
+                                }
+                            }
+                        }
+                    }
+                    StressCase { kind, exec, cfg: cfg.clone(), threads, perturb, drop_only: false }
+                })
             })
             .boxed(),
         Kind::Reclaim => (
@@ -2181,12 +2248,18 @@ pub fn stress_strategy(kind: Kind, async_pct: u32) -> BoxedStrategy<StressCase> 
                 // one case in six on colliding key pairs with a perturbing hasher (value checks only)
                 let collide = perturb % 6 == 0;
                 proptest::collection::vec(proptest::collection::vec(op, 5..50), nt..=nt).prop_map(move |mut threads| {
+                    // one case in five is a "hot key" case: every thread works on the same two keys
+                    // (writes, removes and lookups of one key from several clients racing the
+                    // processor's handling of that key's buffered items)
+                    let hot = perturb % 5 == 1;
                     // a third of the keys are moved to k + 256: another key of the same store shard
                     for t in threads.iter_mut() {
                         for (i, op) in t.iter_mut().enumerate() {
                             match op {
                                 SOp::Insert { k, .. } | SOp::Iip { k, .. } | SOp::Remove { k } | SOp::Get { k } | SOp::GetMut { k } | SOp::GetLinger { k, .. } => {
-                                    if (*k as usize * 7 + i) % 3 == 0 {
+                                    if hot {
+                                        *k %= 2;
+                                    } else if (*k as usize * 7 + i) % 3 == 0 {
                                         *k += 256;
                                     }
                                 }
@@ -2257,6 +2330,7 @@ fn run_reclaim(case: &StressCase, api: Box<dyn Api>, cb: &RecTs) -> SResult {
     let tick = Duration::from_millis(case.cfg.cleanup_ms.max(1));
     let mut serial = 0u32;
     let mut expiring: Vec<Val> = Vec::new();
+    let mut written_cost: HashMap<Val, i64> = HashMap::new();
     // phase 1: the entries that will expire (script of thread 0: Insert ops with ttl)
     for op in case.threads.first().map(|t| t.as_slice()).unwrap_or(&[]) {
         if let SOp::Insert { k, cost, ttl_ms } = op {
@@ -2265,6 +2339,7 @@ fn run_reclaim(case: &StressCase, api: Box<dyn Api>, cb: &RecTs) -> SResult {
             if api.insert(*k as u64, v, *cost, Duration::from_millis((*ttl_ms).max(1) as u64)) == Ok(true) {
                 expiring.push(v);
             }
+            written_cost.insert(v, *cost);
         }
     }
     let mut ok = false;
@@ -2298,6 +2373,7 @@ fn run_reclaim(case: &StressCase, api: Box<dyn Api>, cb: &RecTs) -> SResult {
     // guard mode: a client keeps a write guard (get_mut) on a neighbouring key of an expiring
     // entry's shard alive for ~300 us at a time, so that the sweep runs into a held shard lock
     let guard = case.perturb % 3 == 2;
+    let readers = case.perturb % 3 == 0 && (case.perturb / 3) % 2 == 0;
     let stop = AtomicBool::new(false);
     let guard_key = 256 * 3 + (resident[0].key % 256);
     if guard {
@@ -2314,6 +2390,21 @@ fn run_reclaim(case: &StressCase, api: Box<dyn Api>, cb: &RecTs) -> SResult {
                 let _ = api2.get_linger(guard_key as u64, 300, true);
             }
         });
+    }
+    if readers {
+        // lookup storm: the policy worker is busy applying batches of lookups (it holds the
+        // policy lock meanwhile) while the sweep reclaims
+        for w in 0..2u32 {
+            let api2 = api.dup();
+            let stop = &stop;
+            sc.spawn(move || {
+                let mut j = 0u32;
+                while !stop.load(Ordering::Relaxed) {
+                    j = j.wrapping_add(1);
+                    let _ = api2.get((256 * (60 + w) + (j % 50)) as u64);
+                }
+            });
+        }
     }
     if flood {
         for w in 0..2u32 {
@@ -2375,6 +2466,27 @@ fn run_reclaim(case: &StressCase, api: Box<dyn Api>, cb: &RecTs) -> SResult {
                 let n = log.iter().filter(|(_, e)| e.val() == Some(*v)).count();
                 if n != 1 {
                     return SResult::violation(&["C05", "C08"], "reclaim_callback_count", format!("expired value {} was handed to callbacks {} times", v, n));
+                }
+            }
+            // ... with its charged cost: each of these values was the last one written under its
+            // key, with everything applied (wait() Ok) before the clock moved
+            if !case.cfg.collide {
+                let internal = if case.cfg.ignore_internal_cost { 0 } else { crate::gen::item_size() };
+                for v in resident.iter() {
+                    // (two inserts of one key issued back to back are two New items: the second is
+                    // refused but re-prices the charge - so: the charge of *some* write of the key)
+                    let mut want: Vec<i64> = written_cost.iter().filter(|(o, _)| o.key == v.key).map(|(o, c)| (if *c == 0 { o.tag as i64 } else { *c }) + internal).collect();
+                    want.sort_unstable();
+                    want.dedup();
+                    let got = log.iter().find_map(|(_, e)| match e {
+                        Ev::Evict(x, _, _, cost, ..) if x == v => Some(*cost),
+                        _ => None,
+                    });
+                    if let Some(got) = got {
+                        if !want.contains(&got) {
+                            return SResult::violation(&["C05", "C16"], "reclaim_callback_cost", format!("expired value {} was handed to on_evict with cost {}; the writes of its key were charged {:?}", v, got, want));
+                        }
+                    }
                 }
             }
             drop(log);
